@@ -13,6 +13,7 @@ from ..node import NodeError
 PROP = "C18"
 ORDINARY = ("invalid_argument", "runtime_error", "out_of_range", "std", "bad_alloc", "walk")
 POLICIES = ["none", "keep", "keep", "evict_always", "evict_random", "lossy_set", "broken"]
+SLICE_NONE = 2**63 - 1       # awkward::Slice::none() (kSliceNone = kMaxInt64 + 1), how an omitted start/stop/step reaches the C++ layer
 FAULTS = {"throw": 1, "short": 2, "wrong_form": 3, "long": 4, "short_wrong_form": 5}
 META_COMPARED = ("length", "purelist_depth", "minmax_depth", "branch_depth", "keys", "numfields", "type")
 BAD_GEN = ("throw", "short", "wrong_form", "short_wrong_form", "long")
@@ -95,11 +96,33 @@ def generate(rng, opts):
             ev["alloc_fail"] = r.choice([0, 0, 1, 2, 3, 5, 8, 13, 21])
         events.append(ev)
         nslots += 1
+    first_projection = False
+    if info["keys"] and r.random() < 0.3:
+        # the Form prediction of a lazy field projection, for every shape of record: the first thing that happens to
+        # the untouched lazy array is a[key] (nothing has been materialised or cached yet)
+        first_projection = True
+        if r.random() < 0.8:
+            op = {"op": "field", "key": r.choice(info["keys"])}
+        else:
+            op = {"op": "fields", "keys": r.sample(info["keys"], r.randint(1, len(info["keys"])))}
+        events.insert(0, {"e": "op", "slot": 0, "op": op})
+        for ev in events[1:]:
+            # slot numbers of the later events move up by one
+            if ev["e"] in ("op", "meta") and ev["slot"] >= 1:
+                ev["slot"] += 1
+            if ev["e"] == "op":
+                if "other" in ev["op"] and ev["op"]["other"] >= 1:
+                    ev["op"]["other"] += 1
+                if "more" in ev["op"]:
+                    ev["op"]["more"] = [x + 1 if x >= 1 else x for x in ev["op"]["more"]]
+                for it in ev["op"].get("items", []):
+                    if it.get("k") == "fromslot" and it["slot"] >= 1:
+                        it["slot"] += 1
     return {"mode": "virtual", "truth": truth, "lazy": lazy, "cache": cache, "events": events,
             "declare": [declare_form, declare_length],
             # half of the runs do not read the whole lazy array first (a read fills a keeping cache, after which
             # most lazy paths are not taken any more)
-            "initial_read": r.random() < 0.5}
+            "initial_read": r.random() < 0.5 and not first_projection}
 
 
 def generate_partitioned(r, opts):
@@ -118,8 +141,11 @@ def generate_partitioned(r, opts):
             events.append({"e": "at", "i": O.gen_index(r, n)})
         elif x < 0.7:
             a, b = O.gen_range(r, n)
-            step = r.choice([1, 1, 1, 2, 3, -1, -2])
-            events.append({"e": "range", "start": 0 if a is None else a, "stop": n if b is None else b, "step": step,
+            step = r.choice([1, 1, None, None, 2, 3, -1, -2])
+            if r.random() < 0.5:
+                a, b = (0 if a is None else a), (n if b is None else b)
+            # (None = omitted, as the Python layer passes a[i:j]: Slice::none())
+            events.append({"e": "range", "start": a, "stop": b, "step": step,
                            "then": r.choice([None, "at", "repartition"])})
         elif x < 0.9:
             m = r.choice([1, 2, 3, 4])
@@ -376,6 +402,13 @@ def execute(node, case, rec, opts):
                 # declared length is enforced either way, and nothing of the surplus is visible
                 trimmed = True
                 rec.probe("longer_generation_not_visible")
+            elif lo_[0] == "value" and fault["kind"] == "long":
+                # accepted, and the result is not the materialised array's: reported like any other difference (with
+                # the facts about the operation, so that a difference that belongs to a recorded finding is recognised)
+                from .pool import operand_facts
+                raise Violation("transparency", "lazy_result_differs_from_eager",
+                                {"event": ev, "fault": fault, "eager": show(eo), "lazy": show(lo_), "seam_log": log[-30:],
+                                 "facts": operand_facts(node, em, op)}, at=t)
             elif lo_[0] == "value":
                 raise Violation("enforcement", "faulty_generation_went_unnoticed",
                                 {"event": ev, "fault": fault, "lazy_result": vm.to_jsonable(lo_[1]),
@@ -574,7 +607,7 @@ def execute_partitioned(node, case, rec, opts):
                 rec.probe("partition_at_compared")
             elif e == "range":
                 exp = cur_want[slice(ev["start"], ev["stop"], ev["step"])]
-                p2 = node.part_op(cur, 1, [ev["start"], ev["stop"], ev["step"]])
+                p2 = node.part_op(cur, 1, [SLICE_NONE if x is None else x for x in (ev["start"], ev["stop"], ev["step"])])
                 v = pdump(p2)
                 rec.ev(t, "range", ev["start"], ev["stop"], ev["step"], vm.to_jsonable(v))
                 if not vm.same(v, exp, numeric=True):
@@ -810,6 +843,10 @@ def match_predicate(where, case, violation):
         import json as _json
         if "form_mismatch:generated_contains_virtual" in _json.dumps(violation.get("detail")):
             pass    # whichever operation deferred the slice: the structural condition below decides
+        elif '"form_mismatch"' in _json.dumps(violation.get("detail")):
+            # predicted and generated Form differ and no VirtualArray is involved in either: not this finding (a wrong
+            # Form prediction is a defect of its own - seeded change C18-12 hid behind this matcher once)
+            return False
         elif (ev.get("op") or {}).get("op") not in ("fillna", "simplify", "field", "fields"):
             return False
 
